@@ -28,6 +28,7 @@ import GunYu.Model.Bisync
 import GunYu.Model.BisyncSite
 import GunYu.Proofs.BisyncBlocks
 import GunYu.Proofs.BisyncWorld
+import GunYu.Proofs.BisyncDrain
 
 namespace GunYu.Props.C13
 open GunYu GunYu.BisyncUnit GunYu.Bisync
@@ -252,6 +253,48 @@ theorem exactly_once_and_quiesce (cfg : WCfg) (hf : FOK cfg.parser.filter) (cpAB
     exact dueTags_foreign _ _ _ hmem
   · intro hnp more hl
     exact quiesce cfg hf more w hinv hnp hl
+
+/-- **What was committed is what was written.** In every reachable world, each
+    unit a link has emitted holds exactly the commands (names lower-cased) of a
+    block of its source stream, the block it is tagged with. Together with
+    `exactly_once_and_quiesce` (which blocks were committed, once each): the
+    commands applied at the other site are the client's, not merely the ids. -/
+theorem emitted_content (cfg : WCfg) (hf : FOK cfg.parser.filter) (cpAB cpBA : Bytes)
+    (evs : List Ev) (hgood : GoodRun cfg (World.init cpAB cpBA) evs) :
+    let w := runWorld cfg (World.init cpAB cpBA) evs
+    ∀ s, ∀ p ∈ (w.link s).emitted, ∃ tb ∈ (w.site s).stream, tb.tag = p.1 ∧ p.2.unit.cmds = tb.block.body.map norm :=
+  content_run cfg hf evs _ (winv_init cfg cpAB cpBA) (content_init cpAB cpBA) hgood
+
+/-- **The drain is bounded.** From any reachable world, over ANY sequence of
+    link steps, pending client blocks plus commits is constant: every commit
+    consumes exactly one pending client block and committing never creates a
+    new pending block (what a link writes is not owed a commit). -/
+theorem drain_bound (cfg : WCfg) (hf : FOK cfg.parser.filter) (cpAB cpBA : Bytes)
+    (evs : List Ev) (hgood : GoodRun cfg (World.init cpAB cpBA) evs) (more : List Ev) (hl : ∀ e ∈ more, e.isLink) :
+    let w := runWorld cfg (World.init cpAB cpBA) evs
+    pendingDue (runWorld cfg w more) + (runWorld cfg w more).commits.length = pendingDue w + w.commits.length :=
+  drain_count cfg hf more _ (run_preserves cfg hf evs _ (winv_init cfg cpAB cpBA) hgood) hl
+
+/-- **The exchange quiesces.** From any reachable world there IS a finite
+    sequence of link steps after which each link has stopped (only ever on the
+    builder refusing a client block) or has no pending client block left; and
+    from such a world on, any further link steps change neither stream, nor the
+    commit log, nor the emitted units. -/
+theorem drain_reaches (cfg : WCfg) (hf : FOK cfg.parser.filter) (cpAB cpBA : Bytes)
+    (evs : List Ev) (hgood : GoodRun cfg (World.init cpAB cpBA) evs) :
+    let w := runWorld cfg (World.init cpAB cpBA) evs
+    ∃ more, (∀ e ∈ more, e.isLink) ∧ (∀ s, Settled (runWorld cfg w more) s) ∧
+      ∀ further, (∀ e ∈ further, e.isLink) →
+        (runWorld cfg (runWorld cfg w more) further).a.stream = (runWorld cfg w more).a.stream ∧
+        (runWorld cfg (runWorld cfg w more) further).b.stream = (runWorld cfg w more).b.stream ∧
+        (runWorld cfg (runWorld cfg w more) further).commits = (runWorld cfg w more).commits := by
+  intro w
+  have hinv : WInv cfg w := run_preserves cfg hf evs _ (winv_init cfg cpAB cpBA) hgood
+  obtain ⟨more, h1, h2, h3⟩ := Bisync.drain_reaches cfg hf w hinv
+  refine ⟨more, h1, h3, ?_⟩
+  intro further hfu
+  obtain ⟨a, b, c, _⟩ := quiesce_settled cfg hf further _ h2 h3 hfu
+  exact ⟨a, b, c⟩
 
 -- non-vacuity: a concrete history satisfying `GoodRun` in which a write at A
 -- is applied at B, comes back in B's stream behind an expired marker, and is
